@@ -3,6 +3,7 @@ import Proofs.Walk
 import Proofs.Visits
 import Proofs.NoIdleGlobal
 import Proofs.NoIdleBack
+import Proofs.NoIdleAlt
 import Proofs.TeamFit
 import Proofs.WFCheck
 /-!
@@ -250,5 +251,23 @@ example : EligU (elaborate gapProj).env 1 0 :=
   eligU_of_single _ 1 0 (by decide +kernel) (by decide +kernel) (by decide +kernel) (by decide +kernel) (by decide +kernel)
     (by decide +kernel) (by decide +kernel) (by decide +kernel)
 example : resLimitIds (elaborate gapProj).env 0 = [] ∧ taskLimitIds (elaborate gapProj).env 1 = [] := by decide +kernel
+
+/-! ### forward tasks with an alternative -/
+
+/-- **C08 with an alternative** (`Proofs/NoIdleAlt`): after scheduling ANY well-formed project, for every forward effort task
+    `t` reported as scheduled, without a start of its own, with one primary and one alternative resource (both leaves): every
+    predecessor is scheduled, and on ONE of the two candidates — the one `_selectBestResources` chose at the first slot; by
+    `C03.bookings_on_one_candidate_set` the task holds nothing on the other; it IS booked on this one — between the slot of the dependency bound and any
+    slot `L` in which `t` is booked on it, every slot in which that resource is on shift and not on leave carries a booking in
+    the final ledger, or a limit refuses that slot in the final state. -/
+theorem no_idle_final_with_alternative (e : Env) (wf : WF e) (tr : Tree e) (t r1 r2 : Nat) (hel : EligAltU e t r1 r2)
+    (hs : ((runScenario e).tst t).scheduled = true) (hf : ((runScenario e).tst t).forward = true) :
+    (∀ dp ∈ (e.taskD t).allDeps, ((runScenario e).tst dp.target).scheduled = true) ∧
+    ∃ r, (r = r1 ∨ r = r2) ∧ (∃ L, usageOf ((runScenario e).led.get r L).usage t ≠ none) ∧
+      ∀ L, usageOf ((runScenario e).led.get r L).usage t ≠ none →
+        ∀ i, boundSlot e (runScenario e) t ≤ i → i ≤ L → e.onShift r i = true → e.leaveMark r i = false →
+          ((runScenario e).led.get r i).usage ≠ [] ∨ Exhausted e (runScenario e) t r i :=
+  runScenario_doneIdleAlt e wf tr t r1 r2 hel
+    (runScenario_scheduled_done e t ⟨hel.el.leaf, hel.el.effort, hel.el.nomile⟩ hs) hf
 
 end SP.C08
